@@ -177,9 +177,13 @@ def gen_case(ctx, k, valid):
     else:
         sc.add(*cfggen.bus_lines(base, nodes))
     sc.add('bus brackets 0', 'logerr 1')
+    via = rng.choice(['pointer', 'pointer', 'pointer', 'serial', 'serial-nodevice'])       # the same configurations through bidib_start_serial (simulated device / no such device)
     for i in range(6):
-        sc.add(f'mark att{i}', f'start {dm} {rng.choice([0, 0, 2])}', 'stop', f'heap att{i}')
+        fi_ = rng.choice([0, 0, 2])
+        st = f'start {dm} {fi_}' if via == 'pointer' else f'start_serial /dev/simbus {dm} {fi_}' if via == 'serial' else f'start_serial /dev/no-such-device {dm} {fi_}'
+        sc.add(f'mark att{i}', st, 'stop', f'heap att{i}')
     sc.add('bus clear', *cfggen.bus_lines(vcfg, vnodes), 'bus brackets 1', 'mark restart', f'start {dv} 0', 'quiesce', 'snap v', 'stop', 'heap end')
+    classes = classes + ['via:' + via]
     return sc.text(), classes, silent
 
 def run(ctx):
